@@ -1386,10 +1386,33 @@ def flw9(ctx):
             if not edited:
                 continue
             roots = {_root_name(m["recv"], "asca::word::Word") for m in hirq.walk(node["cond"]) if m["e"] == "mcall" and m["name"] in ("len", "is_empty")}
+            # a count taken earlier and kept in a local (`let only_syll = res_word.syllables.len() <= 1`)
+            cached = None
+            for m in hirq.walk(node["cond"]):
+                if m["e"] == "path" and "hid" in m:
+                    for lt in hirq.walk(root):
+                        if lt["e"] == "let" and lt.get("init") is not None and any(q.get("hid") == m["hid"] for q in hirq.walk_pats(lt["pat"]) if q.get("p") == "bind"):
+                            rs = {_root_name(y["recv"], "asca::word::Word") for y in hirq.walk(lt["init"]) if y["e"] == "mcall" and y["name"] in ("len", "is_empty")}
+                            rs.discard(None)
+                            if rs:
+                                roots |= rs
+                                # is the guard inside a loop that the `let` is outside of?
+                                x = par.get(id(node))
+                                while x is not None:
+                                    if x.get("e") == "loop" or (x.get("e") == "match" and "ForLoop" in str(x.get("src"))):
+                                        if not any(y is lt for y in hirq.walk(x)):
+                                            cached = (m.get("local"), lt.get("ln"))
+                                        break
+                                    x = par.get(id(x))
             roots.discard(None)
             k = ordinal.get(which, 0)
             ordinal[which] = k + 1
             n += 1
+            if cached:
+                r.inst("%s: %s #%d guard uses `%s`, a count taken before the loop" % (fpath.rsplit("::", 1)[-1], which, k, cached[0]), fn_loc(b, node["ln"]), "report")
+                r.report("FLW-9|%s|%s|#%d|cached" % (fpath, which, k), fn_loc(b, node["ln"]), fpath,
+                         "the refusal tests `%s`, computed once (line %s) before the loop over the matched elements, while the loop removes segments and syllables: after an earlier removal in the same match the count is stale and the last syllable of the word can be deleted" % cached)
+                continue
             stale = sorted(x for x in roots if x != edited)
             exc = UNWITNESSED_9.get((fpath, which, k))
             verdict = "ok" if not stale else ("accepted:exception" if exc else "report")
